@@ -611,6 +611,20 @@ pub fn profile_run(seed: u64, wrapped: &mut InstructionSet, names: &[String], tw
             let d = 100 + (seed / 16 % 900) as usize;
             text = format!("{}{}{}", "( ".repeat(d), text, " )".repeat(d));
         }
+        if twins_first {
+            // history: other interpreters on this thread, with other vocabularies (an unloaded set; the
+            // registry plus user instructions named like names of the text), have parsed the same text
+            let mut scratch = PushState::new();
+            let unloaded = InstructionSet::new();
+            let _ = caught(|| pushr::push::parser::PushParser::parse_program(&mut scratch, &unloaded, &text));
+            let mut scratch = PushState::new();
+            let mut custom = InstructionSet::new();
+            custom.load();
+            for n in NAME_POOL.iter().take(12) {
+                let _ = custom.add(n.to_string(), pushr::push::instructions::Instruction::new(|_, _| {}));
+            }
+            let _ = caught(|| pushr::push::parser::PushParser::parse_program(&mut scratch, &custom, &text));
+        }
         let _ = caught(|| pushr::push::parser::PushParser::parse_program(&mut st, wrapped, &text));
     } else {
         load_program(&mut st, wrapped, &t.prog, false);
